@@ -6,6 +6,24 @@ from gen_lean import write_if_changed
 CONSTS = ["LBase", "VBase", "TBase", "LCount", "VCount", "TCount", "NCount", "SCount", "SBase",
           "LJMO", "VJMO", "TJMO"]
 PREDS = ["combiningL", "combiningV", "combiningT", "combinedS", "l", "v", "t", "tone"]
+# `hangul plan`: names of verif::shaper::shaper_name in the order of RbModel.Hangul.Shaper.code
+SHAPERS = ["default", "dumber", "hangul", "arabic", "hebrew", "indic", "khmer", "myanmar", "zawgyi", "thai", "use"]
+DIRS = "lrtb"
+
+
+def planner_probe(shim):
+    """what ShapePlan::new of the compiled crate decides for script Hang on the 2 x 2 table environments (GSUB, morx)
+    x 4 directions: rows (hasGsub, hasMorx, direction 0..3, shaper code, apply_morx)."""
+    keys = [(g, m, d) for g in (0, 1) for m in (0, 1) for d in range(4)]
+    reqs = [f"hangul plan {('S' if g else '') + ('M' if m else '') or '-'} {DIRS[d]} Hang hangul" for g, m, d in keys]
+    outs = vlib.run_lines(shim, reqs, nproc=1)
+    rows = []
+    for (g, m, d), q, o in zip(keys, reqs, outs):
+        t = o.split()
+        if len(t) != 2 or t[0] not in SHAPERS or t[1] not in ("0", "1"):
+            raise vlib.BuildError(f"hangul plan probe: {q} -> {o[:200]}")
+        rows.append((g, m, d, SHAPERS.index(t[0]), int(t[1])))
+    return rows
 
 
 def generate(shim):
@@ -22,5 +40,10 @@ def generate(shim):
     for n, r in zip(PREDS, rs):
         items = [] if r == "-" else [tuple(map(int, x.split("-"))) for x in r.split(",")]
         body.append(f"def {n}Ranges : List (Nat × Nat) := [" + ", ".join(f"({a}, {b})" for a, b in items) + "]")
+    b = lambda x: "true" if x else "false"
+    body.append("/-! the planner probed on the compiled crate (`hangul plan`, script Hang): (font has GSUB, font has morx, "
+                "direction 0 LTR 1 RTL 2 TTB 3 BTT, shaper of the plan: 0 default 1 dumber 2 hangul, plan.apply_morx) -/")
+    body.append("def plannerProbe : List (Bool × Bool × Nat × Nat × Bool) := ["
+                + ", ".join(f"({b(g)}, {b(m)}, {d}, {sh}, {b(am)})" for g, m, d, sh, am in planner_probe(shim)) + "]")
     body.append("end RbModel.Gen.Hangul")
     return write_if_changed("Hangul.lean", "\n".join(body) + "\n")
